@@ -188,5 +188,6 @@ RULES = [
     ("C19.once", rule_once),
     ("C19.async", rule_async),
     ("C19.bp", rule_bp),
+    ("C19.const", lambda c, r: pat.shared(__import__("sa.rules.c01", fromlist=["x"]).rule_const, "C19.const", lambda x: any(k in x["instance"] for k in ("read_lock", "read_unlock", "read_ongoing")) or x["status"] != "pass")(c, r)),   # nesting mask / count constants: a handler nests at any depth
 ]
 FLOORS = {}
